@@ -1,6 +1,9 @@
 // Lock-step harness, stage family "Throttling" (property C13 and its share of C06).
 //
-//	cfg:   stage=Throttling cap=<c> ops=<ops> ival=<interval in virtual ms>
+//	cfg:   stage=Throttling cap=<c> ops=<ops> ival=<interval in virtual ms> [dl=<deadline of the context>] [mode=hist]
+//	       mode=hist: the process has a history. Before the stage under test is built, another Throttling has
+//	       been used and cancelled while its pacer was waiting for its interval, and a third, unrelated one (own
+//	       context, another interval) is busy for the whole run. Calls are independent: none of that may show.
 //	moves: s<v> (non-blocking send), c0 (close in), r0 (non-blocking receive), x (cancel),
 //	       t<d> (the main goroutine sleeps d virtual ms), z (goroutine census)
 //
@@ -10,6 +13,7 @@ package lockstep
 
 import (
 	"context"
+	"testing/synctest"
 	"time"
 
 	"github.com/fogfish/golem/pipe/v2"
@@ -17,6 +21,40 @@ import (
 
 func init() {
 	special["Throttling"] = func(ctx context.Context, e *env) ([]chan int, []outp) {
+		if e.c.mode == "hist" {
+			ival := time.Duration(e.c.ival) * time.Millisecond
+			ctxA, cancelA := context.WithCancel(context.Background())
+			inA := make(chan int)
+			outA := pipe.Throttling(ctxA, inA, 1, ival)
+			inA <- 1
+			<-outA
+			synctest.Wait() // the pacer of A sits in its interval wait
+			cancelA()
+			close(inA)
+			for range outA {
+			}
+			synctest.Wait()
+			ctxB, cancelB := context.WithCancel(context.Background())
+			inB := make(chan int)
+			outB := pipe.Throttling(ctxB, inB, 1, 3*ival+7*time.Millisecond)
+			go func() {
+				for v := 0; ; v++ {
+					select {
+					case inB <- v:
+					case <-ctxB.Done():
+						close(inB)
+						return
+					}
+				}
+			}()
+			go func() {
+				for range outB {
+				}
+			}()
+			synctest.Wait()
+			e.baseline = census()
+			e.teardown = append(e.teardown, func() { cancelB(); synctest.Wait() })
+		}
 		in := make(chan int, e.c.cap)
 		out := pipe.Throttling(ctx, in, e.c.ops, time.Duration(e.c.ival)*time.Millisecond)
 		return []chan int{in}, []outp{outInt(out)}
